@@ -27,7 +27,9 @@ int SIGS[NSG];
 // ops: ev <loop> <sigmask 1..7> <oneshot>      en|dis|del <e>      raise <s> <via 0 driver, k>0 loop k-1>
 //      pair <e1> <k1> <e2> <k2>   two subscription changes (k: 0 enable, 1 disable) posted to their loops at once, i.e. concurrently
 //                                 on different threads; the driver waits for both before anything else happens
-//      addsig <e> <s>             one more signal is added to event e with initialize(signo, mode) (whether or not it is enabled) and it is enabled (again)
+//      (any op may carry the wait-EINTR fault: the loops' epoll_wait()/select() are interrupted now and then, as by a signal that arrives during the wait)
+//      addsig <e> <s> <mode>      (mode -1 keep, 0 persistent, 1 one-shot: the mode given to this initialize(), which is the one in force afterwards)
+//                                 one more signal is added to event e with initialize(signo, mode) (whether or not it is enabled) and it is enabled (again)
 //      rcb <s1> <via> <e2> <s2>   like raise s1, but the first callback of that delivery enables event e2 (through its own loop) and raises s2 from inside the callback
 //      flood <s> <stall_loop> <n>  loop stall_loop is kept busy (it does not serve its pipe) while signal s is raised n times in batches; the other
 //                                 loops keep running: a pipe that fills up on the stalled loop must not cost the other loops a single delivery
@@ -52,7 +54,7 @@ void generate(sim::Rng &r, uint64_t seed, const std::string &tier, sim::Plan &p)
     if (x < 30) { op.kind = "en"; op.a = {(long)r.below((uint64_t)nev)}; }
     else if (x < 45) { op.kind = "dis"; op.a = {(long)r.below((uint64_t)nev)}; }
     else if (x < 52) { op.kind = "del"; op.a = {(long)r.below((uint64_t)nev)}; }
-    else if (x < 55) { op.kind = "addsig"; op.a = {(long)r.below((uint64_t)nev), (long)r.below(NSG)}; }
+    else if (x < 55) { op.kind = "addsig"; op.a = {(long)r.below((uint64_t)nev), (long)r.below(NSG), r.chance(500) ? -1 : (long)r.below(2)}; }
     else if (x < 62) {
       // e2 and one of its signals; the first delivery is of a signal e2 is not subscribed to
       long e2 = (long)r.below((uint64_t)nev), s2 = (long)r.below(NSG), s1 = (long)r.below(NSG);
@@ -64,6 +66,7 @@ void generate(sim::Rng &r, uint64_t seed, const std::string &tier, sim::Plan &p)
     else if (x < 66) { op.kind = "craise"; op.a = {(long)r.below((uint64_t)nev), (long)r.below(2), (long)r.below(NSG), (long)r.below((uint64_t)nl + 1)}; }
     else if (x < 77 && nl > 1) { op.kind = "pair"; op.a = {(long)r.below((uint64_t)nev), (long)r.below(2), (long)r.below((uint64_t)nev), (long)r.below(2)}; }
     else { op.kind = "raise"; op.a = {(long)r.below(NSG), (long)r.below((uint64_t)nl + 1)}; }
+    if (r.chance(250)) { op.fseed = r.next() >> 2; op.fmask = sim::F_WAIT_EINTR; }
     p.ops.push_back(op);
   }
   sim::draw_sched(seed, p);
@@ -186,6 +189,7 @@ void execute(const sim::Plan &plan) {
   for (const sim::Op &op : plan.ops) {
     if (sim::violation_count()) break;
     if (op.kind == "ev") continue;
+    sim::fault_scope(op.fseed, op.fmask);
     if (op.kind == "en" || op.kind == "dis" || op.kind == "del") {
       if (W.nev == 0) continue;
       int e = (int)(((op.arg(0) % W.nev) + W.nev) % W.nev);
@@ -203,6 +207,7 @@ void execute(const sim::Plan &plan) {
       Ev &E = W.ev[e];
       if (!E.exists) continue;
       sim::relevant();
+      if (op.arg(2, -1) >= 0) E.oneshot = op.arg(2) != 0;
       int signo = SIGS[sidx]; bool oneshot = E.oneshot;
       on_loop(E.loop, [e, signo, oneshot] { W.ev[e].ev->initialize(signo, oneshot ? Event::Mode::kOneshot : Event::Mode::kPersist); if (!W.ev[e].ev->enable()) sim::violation("C04/enable-failed", "enable() of a signal event failed"); });
       E.mask |= (1 << sidx); E.enabled = true;
@@ -366,6 +371,7 @@ void execute(const sim::Plan &plan) {
       check_dispositions("after a one-shot delivery");
     }
   }
+  sim::fault_scope(0, 0);
   // tear down: disable everything through the owning loops, stop the loops
   for (int e = 0; e < W.nev; ++e) if (W.ev[e].exists) { on_loop(W.ev[e].loop, [e] { delete W.ev[e].ev; W.ev[e].ev = nullptr; }); W.ev[e].exists = false; W.ev[e].enabled = false; }
   if (sim::violation_count() == 0) check_dispositions("after destroying every event");
